@@ -122,7 +122,7 @@ def spec_strategy(heavy: bool):
     from hypothesis import strategies as st
 
     world = st.sampled_from(['thread', 'task'])
-    solver = st.sampled_from(['cg1', 'cg40', 'cg41', 'cg500']) if heavy else st.sampled_from(['u', 'u', 'cg40', 'cg500'])
+    solver = st.sampled_from(['cg1', 'cg40', 'cg41', 'cg500', 'cg40!', 'cg500!']) if heavy else st.sampled_from(['u', 'u', 'ug', 'ub', 'cg40', 'cg500', 'cg500!', 'gm30'])
     kw = st.fixed_dictionaries(
         {},
         optional={
